@@ -163,6 +163,9 @@ def _small_scope(case, ctx):
                 want = m.apply_filter(nm, sub)
                 if want is not None:
                     ctx.check(got == want, "criterion:" + nm, f"{where}: {nm} kept {got}, criterion keeps {want}")
+                else:
+                    bad = [o_ for o_ in m.dominated_positive(sub) if o_ in got]
+                    ctx.check(not bad, "criterion:dominated_operations:kept-dominated", f"{where}: {nm} kept {got}; {bad} have positive duration and are dominated")
                 ctx.count("filter_calls")
             for (a, b), comp in composites.items():
                 lst = [instance.jobs[j][p] for (j, p) in sub]
@@ -251,6 +254,15 @@ def check_case(case, ctx):
                 want = m.apply_filter(nm, sub)
                 if want is None:
                     ctx.count("dominated_zero_structural_only")
+                    # a zero duration makes the literal criterion unsatisfiable
+                    # for the zero-duration operation itself, but an operation
+                    # with POSITIVE duration that is dominated must still go
+                    bad = [o_ for o_ in m.dominated_positive(sub) if o_ in got]
+                    ctx.check(
+                        not bad,
+                        "criterion:dominated_operations:kept-dominated",
+                        f"{where}: {nm} kept {got}; {bad} have positive duration and are dominated",
+                    )
                 else:
                     ctx.check(
                         got == want,
